@@ -452,10 +452,13 @@ def eval_spec(I, expr, env, module):
     fr.vars.update(env)
     old_impl = I.ctx.implicit_on
     I.ctx.implicit_on = False
+    old_raf = getattr(I.ctx, "raise_as_false", False)
+    I.ctx.raise_as_false = True
     try:
         return I.ctx.merged(lambda: I.eval(node, fr))
     finally:
         I.ctx.implicit_on = old_impl
+        I.ctx.raise_as_false = old_raf
 
 
 # ------------------------------------------------------------------------------------------
@@ -804,7 +807,9 @@ def model_value(m, v, depth=0):
 
     if isinstance(v, F):
         return float(v)
-    return v
+    if v is None or isinstance(v, (bool, int, float, str)):
+        return v
+    return repr(v)  # stubs, modules, ...: keep the result picklable / JSON-able
 
 
 def model_params(m, env):
